@@ -31,6 +31,7 @@ type Prog struct {
 	declOf   map[*types.Func]*ast.FuncDecl
 	fileOf   map[*ast.File]*packages.Package
 	cg       *CG
+	callersMemo map[*ssa.Function][]ssa.CallInstruction
 	Patterns []string
 	Tags     string
 	LoadSecs float64
